@@ -132,3 +132,51 @@ def _ev_match(node, atom, inl):
             b = arm["body"]
             return ev_body(b, atom, inl) if b.get("k") == "block" else ev_expr(b, atom, inl)
     raise Unknown("no arm matches " + str(v))
+
+
+def leaf(node, atom, inl, depth=0):
+    """The expression a value-returning block / expression evaluates to under the environment `atom`: decisions (`if`, `match` on a
+    scrutinee the environment knows, early returns, locals bound to such decisions) are taken, everything else is the leaf."""
+    from synq import walk
+    if node is None or depth > 30:
+        raise Unknown("empty / too deep")
+    k = node.get("k")
+    if k == "paren":
+        return leaf(node["e"], atom, inl, depth + 1)
+    if k == "block":
+        for st in node["s"]:
+            sk = st.get("k")
+            if sk in ("local", "item_fn", "macro") and st is not node["s"][-1]:
+                continue
+            if sk == "return":
+                return leaf(st["e"], atom, inl, depth + 1)
+            if sk == "if" and st is not node["s"][-1] and any(x.get("k") == "return" for x in walk(st)):
+                br = st["t"] if ev(st["c"], atom, inl) else st.get("e")
+                if br is not None:
+                    rets = [x for x in br["s"] if x.get("k") == "return"] if br.get("k") == "block" else []
+                    if rets:
+                        return leaf(rets[0]["e"], atom, inl, depth + 1)
+                continue
+            if st is node["s"][-1]:
+                return leaf(st, atom, inl, depth + 1)
+        raise Unknown("no result expression")
+    if k == "if" and node.get("e") is not None:
+        return leaf(node["t"] if ev(node["c"], atom, inl) else node["e"], atom, inl, depth + 1)
+    if k == "match":
+        v = atom(show(node["e"]).lstrip("&*"))
+        if v is None and inl is not None:
+            v = atom(inl.show(node["e"]).lstrip("&*"))
+        if v is None:
+            raise Unknown("match on " + show(node["e"]))
+        for arm in node["arms"]:
+            heads = [str(pat_head(a)) for a in pat_alts(arm["pat"])]
+            if any(h == "_" or last_seg(h) == last_seg(str(v)) for h in heads):
+                if arm.get("guard") is not None and not ev(arm["guard"], atom, inl):
+                    continue
+                return leaf(arm["body"], atom, inl, depth + 1)
+        raise Unknown("no arm matches " + str(v))
+    if k == "path" and "::" not in node["p"] and inl is not None:
+        init = inl._init_of(node, node["p"])
+        if init is not None and init.get("k") in ("if", "match", "block"):
+            return leaf(init, atom, inl, depth + 1)
+    return node
